@@ -31,7 +31,7 @@ CHECK = {
             'and nil schemas accept (nop_accepts, nil_accepts; the unconditional reading for none is refuted and reported). Tie: generated documents (members removed / '
             'retyped at every level, numeric boundaries incl. int64 extremes, 1.0, 1e3, fractions, extra members, odd annotation keys, null entries) as JSON and block-style '
             'YAML through ValidateData/ValidateFile/ValidateReader/ReadAndValidate/ValidateType/Validate under Load(builtin|none|path), nil, and 8 variant schemas translated '
-            'by the same translator and loaded from disk.',
+            'by the same translator and loaded from disk. A tie between the two regenerated fragments (required_members_always_encoded): every member the schema requires of an object is written by the encoder of the Go struct it is decoded into, under the same name in both encodings and also when empty, so the in-memory route sees the members the other routes see.',
     'note': 'Partial: that gojsonschema implements draft-07 for the modelled keywords is established by differential execution only (not modelled). Trusted: Coq kernel + '
             'vm_compute; tools/gen_schema.py; harness; text layers. No axioms.',
     'technique': 'Coq proof (executable validator = declarative draft-07 semantics) over a schema regenerated from source + differential correspondence against gojsonschema '
